@@ -148,13 +148,13 @@ def gen_cases(ctx, prop):
     th = ctx.thorough
     lines = []
     small = [1, 1, 2, 3, 7]
-    n_small = 6000 if th else 900
-    n_real = 1200 if th else 120
+    n_small = 20000 if th else 900
+    n_real = 3000 if th else 120
     for _ in range(n_small):
         lines.append(gen_q_random(rng, rng.choice(small)))
     for _ in range(n_real):
         lines.append(gen_q_random(rng, 0))
-    reps = 6 if th else 1
+    reps = 15 if th else 1
     for _ in range(reps):
         for phase in range(60):                      # every position of the purge tick relative to expiry
             lines.append(gen_q_periodic(rng, rng.choice(small + [0] if phase % 10 == 0 else small), phase))
@@ -193,6 +193,11 @@ def _parse_tail(tok):
 def property_holds(line, out):
     """Evaluate C05/C07 on the implementation's answers.  Returns None or (tag, explanation)."""
     f = line.split(" ")
+    m = re.search(r"/(-?\d+)/[^|/]*!nodes=(-?\d+)", out)
+    if m:
+        return ("table", "hash_count says %s but hash_for_each visits %s nodes" % (m.group(1), m.group(2)))
+    if "!key" in out:
+        return ("table", "a node's key pointer is not its data pointer")
     if f[0] == "Q":
         keys = _parse_keys(f[2])
         ops = f[3].split(",")
